@@ -564,7 +564,11 @@ class CountingDataHandler:
                         {'attributeID': 20, 'defaultValue': 1.0, 'highIsGood': True,
                          'stackable': False},
                         {'attributeID': 2468, 'defaultValue': 0.0, 'highIsGood': True,
-                         'stackable': True}])
+                         'stackable': True}] +
+                       # known to the data only as rows of their own: whichever the effect's modifier
+                       # info names is reachable, the others are not
+                       [{'attributeID': a, 'defaultValue': 5.0, 'highIsGood': True, 'stackable': True}
+                        for a in MI_ATTRS])
 
     def get_dgmtypeattribs(self):
         return self._r([{'typeID': 1, 'attributeID': 9, 'value': 100.0 * self.scale},
@@ -576,7 +580,11 @@ class CountingDataHandler:
                          'isAssistance': False,
                          'modifierInfo': [{'domain': 'shipID', 'func': 'ItemModifier',
                                            'modifiedAttributeID': 9, 'modifyingAttributeID': 20,
-                                           'operation': 6}]}])
+                                           'operation': 6},
+                                          {'domain': 'shipID', 'func': 'ItemModifier',
+                                           'modifiedAttributeID': 9,
+                                           'modifyingAttributeID': mi_attr(self.scale),
+                                           'operation': 2}]}])
 
     def get_dgmtypeeffects(self):
         return self._r([{'typeID': 2, 'effectID': 1000, 'isDefault': True}])
@@ -603,6 +611,13 @@ def buff_attr(scale):
     return 9 if scale % 2 else 20
 
 
+MI_ATTRS = (31, 32, 33)
+
+
+def mi_attr(scale):
+    return MI_ATTRS[scale % 3]
+
+
 def served_value(handler):
     """what the handler serves, as the number that depends on the data (base value of attr 9 on type 1)
     provided the buff templates it serves come from the same data; -1.0 when the served objects are a
@@ -619,6 +634,17 @@ def served_value(handler):
     if v is not None and tpls is not None:
         attrs = sorted(t.affectee_attr_id for t in tpls)
         if attrs != [buff_attr(int(v / 100))]:
+            return -1.0
+    if v is not None:
+        # the attributes reachable through the effect's modifier info are those of the same data
+        have = []
+        for a in MI_ATTRS:
+            try:
+                handler.get_attr(a)
+                have.append(a)
+            except CacheHandlerError:
+                pass
+        if have != [mi_attr(int(v / 100))]:
             return -1.0
     return v
 
